@@ -180,7 +180,7 @@ def gen_cases(tier, seed):
     subsets = [m for m in range(1 << 12) if bin(m).count('1') >= 2]
     for a in range(0, len(subsets), 128):
         cases.append(dict(part='subsample', masks=subsets[a:a + 128], phase=ph))
-    for kind in ('shift_quarter', 'shift_half', 'dense2', 'dense3', 'overlap_left', 'overlap_right', 'inside',
+    for kind in ('shift_tiny', 'shift_quarter', 'shift_half', 'dense2', 'dense3', 'overlap_left', 'overlap_right', 'inside',
                  'disjoint', 'touching'):
         cases.append(dict(part='pair', kind=kind, phase=ph))
     cases.append(dict(part='series', phase=ph))
@@ -244,6 +244,10 @@ def run_subsample(case, v, stats):
 
 def second_operand(kind, base, phase):
     t = np.asarray(base.index, dtype=float)
+    if kind == 'shift_tiny':
+        s = base.copy()
+        s.index = pd.Index(t + 2.0 ** -11, name='time')      # half a millisecond: a different sampling of time
+        return s
     if kind == 'shift_quarter':
         s = base.copy()
         s.index = pd.Index(t + 0.0625, name='time')
@@ -358,8 +362,18 @@ def run_resample(case, v, stats):
         'knots': t, 'knots_reversed': t[::-1], 'mid': 0.5 * (t[:-1] + t[1:]),
         'outside_mixed': np.array([90.0, 99.999, 100.0, 100.3, 103.7, 106.0, 106.001, 120.0]),
         'dense': np.arange(99.0, 107.0, 0.0625), 'single': np.array([102.125]), 'none_inside': np.array([1.0, 200.0]),
+        # a microsecond / half a millisecond beside the original stamps: still interpolated, not snapped
+        'near_knots': np.concatenate([t[1:-1] - 2.0 ** -20, t[1:-1] + 2.0 ** -20, t[1:-1] - 2.0 ** -11,
+                                      t[:-1] + 2.0 ** -11]),
     }
     colsets = [COLS, COLS[::-1], LLA + VEL, RPH, ['alt', 'heading', 'roll', 'VN', 'pitch'], ['VE']]
+    # the same table on a large time base (seconds of week): relative tolerances on time would snap here
+    big = base.copy()
+    big.index = pd.Index(t - 100.0 + 345600.0, name='time')
+    for qn, q in (('big_near_knots', queries['near_knots'] - 100.0 + 345600.0), ('big_mid', queries['mid'] - 100.0 + 345600.0)):
+        got = transform.resample_state(big, q)
+        n += 1
+        compare_tables(got, ref_resample(big, q), 'resample %s' % qn, v)
     for qn, q in queries.items():
         for cols in colsets:
             st = base[cols]
